@@ -1779,6 +1779,33 @@ fn gen_c07(o: &mut Out, r: &mut Rng, d: &GDict, tier: &str) {
 /// C08 (cuts = false) and C09 (cuts = true): the per-connection loop of the server on scripted streams
 fn gen_c08(o: &mut Out, r: &mut Rng, d: &GDict, tier: &str, cuts: bool) {
     let thorough = tier == "thorough";
+    if !cuts {
+        // through the real listeners too (plain TCP and TLS): every request of a connection is answered, also after the
+        // connection has been idle for a while (real seconds)
+        for tls in [0, 1] {
+            o.case(&format!("listener tls={}", tls));
+            o.line(&format!("lsn tls={} good=2 reqs=6 fault=none when=during nfaulty=0 hold={}", tls, if thorough { 35 } else { 11 }));
+        }
+        // answers far beyond the size of anything read: 1 MiB + 4 and 3 MiB (the read limit is no write limit)
+        let oc = d.by_type(T_OCT)[0].code;
+        for big in [(1usize << 20) - 28, (1 << 20) - 24, 3 << 20] {
+            let reqs = [small_messages(r, d)[1].clone(), small_messages(r, d)[0].clone()];
+            let rf: Vec<Vec<u8>> = reqs.iter().map(|m| m.encode(&mut None)).collect();
+            let small = small_messages(r, d)[2].clone();
+            o.case(&format!("serve good corpus=big{} reqlens={},{} anslens={},{}", big, rf[0].len(), rf[1].len(), 20 + 8 + big + pad(big), small.encode(&mut None).len()));
+            o.line("mclear");
+            o.line("new 272 4 0 7 8");
+            o.line("clear");
+            o.line(&format!("val octn {} 5a", big));
+            o.line(&format!("add_avp {} - 0", oc));
+            o.line("msave");
+            let mut ls = vec![];
+            small.ops(r, &mut ls);
+            o.lines(&ls);
+            o.line("msave");
+            o.line(&format!("serve a0,a1 d:{} -", hex(&rf.concat())));
+        }
+    }
     let n_corpus = if cuts { if thorough { 250 } else { 10 } } else if thorough { 1500 } else { 50 };
     for ci in 0..n_corpus {
         let nreq = 1 + r.below(if cuts { 4 } else { 8 }) as usize;
@@ -1992,6 +2019,11 @@ fn gen_c10(o: &mut Out, r: &mut Rng, tier: &str) {
     for tls in [0, 1] {
         o.case(&format!("listener baseline tls={}", tls));
         o.line(&format!("lsn tls={} good=2 reqs=4 fault=none when=during nfaulty=0", tls));
+        // connections that live long and are idle in between (real seconds): still served
+        for hold in if thorough { vec![11, 35, 65] } else { vec![11] } {
+            o.case(&format!("listener long-lived tls={} hold={}", tls, hold));
+            o.line(&format!("lsn tls={} good=2 reqs=4 fault=none when=during nfaulty=0 hold={}", tls, hold));
+        }
         for f in faults {
             for w in whens {
                 let reps = if thorough { 12 } else { 1 };
@@ -2762,6 +2794,21 @@ fn gen_c16(o: &mut Out, r: &mut Rng, tier: &str, extra: &[String]) {
             emit_doc(o, d, "load");
         } else {
             emit_dict(o.w, d);
+        }
+        // every name an <avp> element of a shipped document declares can be used (a later element must not un-declare it)
+        if !lines.is_empty() && !name.contains('+') {
+            for e in load_defs_elements(name) {
+                if e.ty >= 16 {
+                    continue;
+                }
+                o.case(&format!("element code={} vendor={} m={}", e.code, vend(e.vendor), e.m as u8));
+                let val = if e.ty == T_GROUPED { GV::Grp(vec![]) } else { leaf(r, e.ty, None) };
+                let mut ls = vec![];
+                val.ops(r, &mut ls);
+                o.lines(&ls);
+                o.line(&format!("avp_name {}", hexd(e.name.as_bytes())));
+                o.line("clear");
+            }
         }
         // every name of the dictionary (exhaustive)
         let mut names: Vec<String> = d.defs.iter().map(|x| x.name.clone()).collect();
